@@ -592,7 +592,7 @@ class Seq:
             # symbolic index into concrete-length items: ite chain
             kk = zint(k)
             if not self.items:
-                raise Unsupported('index into empty sequence')
+                return False if self.elem == 'bool' else 0       # total: unspecified outside the range
             allbool = all(isinstance(x, (bool, SBool)) for x in self.items)
             if allbool:
                 r = zbool(self.items[-1])
